@@ -110,6 +110,13 @@ def _extract_input_object(
             value = node_fields[name].value
             coerced[target_name] = value_from_ast(value, field.type, variables)
 
+    known_names = set(field.name for field in type_.fields)
+    for name in node_fields:
+        if name not in known_names:
+            raise InvalidValue(
+                'Unknown field "%s" for type "%s"' % (name, type_), [node]
+            )
+
     return coerced
 
 
